@@ -68,13 +68,20 @@ Record variant := {
   release_if_holds : bool;   (* false (as shipped): release iff not was_cached; true: iff the job still holds units *)
   recheck_on_skip : bool;    (* false (as shipped): a re-nominated job that ends up collapsed/cached wakes nobody *)
   ctx_strict : bool;         (* false (as shipped): a context-free call may reuse a record made under a context *)
-  pending_owner_safe : bool  (* false (as shipped): submitting overwrites _pending_jobs[key] and _finalize_job pops it
+  pending_owner_safe : bool; (* false (as shipped): submitting overwrites _pending_jobs[key] and _finalize_job pops it
                                 whoever owns the entry; true: jobs that opted out of CSE do not register, pop only one's own entry *)
+  ctx_exact : bool           (* true: a context-free look-up sees exactly the records made without a context.
+                                false (the current code): the context of a call is a tag on its CallNode, and a CallNode is
+                                shared by all calls with one call hash; a context-free look-up skips every tagged CallNode,
+                                so once a twin of the call has been recorded under a context the backend's answer decides
+                                (it may miss although the context-free call was recorded) *)
 }.
 Definition as_shipped : variant :=
-  {| release_if_holds := false; recheck_on_skip := false; ctx_strict := false; pending_owner_safe := false |}.
+  {| release_if_holds := false; recheck_on_skip := false; ctx_strict := false; pending_owner_safe := false;
+     ctx_exact := false |}.
 Definition all_fixed : variant :=
-  {| release_if_holds := true; recheck_on_skip := true; ctx_strict := true; pending_owner_safe := true |}.
+  {| release_if_holds := true; recheck_on_skip := true; ctx_strict := true; pending_owner_safe := true;
+     ctx_exact := true |}.
 
 Record config := {
   limit_of : nat -> Z;       (* configured limit; 1 for an unconfigured name *)
@@ -260,6 +267,15 @@ Definition cse_lookup (c : config) (s : state) (key ctx : nat) : option outcome 
                      else (Nat.eqb ctx 0 || Nat.eqb (snd (fst r)) ctx)))
           (recorded s)).
 
+(** some twin of the call has been recorded under a (non-empty) context *)
+Definition ctx_twin_recorded (s : state) (key : nat) : bool :=
+  existsb (fun r => Nat.eqb (fst (fst r)) key && negb (Nat.eqb (snd (fst r)) 0)) (recorded s).
+
+(** the same-execution look-up as the code performs it *)
+Definition cse_eff (c : config) (s : state) (key ctx : nat) : option outcome :=
+  if negb (ctx_exact (vr c)) && Nat.eqb ctx 0 && ctx_twin_recorded s key then None
+  else cse_lookup c s key ctx.
+
 (** * _exec_job_main_thread *)
 Definition skip_wakeup (c : config) (s : state) : state :=
   if recheck_on_skip (vr c) then check_pending_limits c s else s.
@@ -287,7 +303,7 @@ Definition exec_job (c : config) (s : state) (j : nat) (co : cache_outcome) : st
       | None =>
           let hit :=
             if jnocse x then None
-            else match cse_lookup c s (jkey x) (jctx x) with
+            else match cse_eff c s (jkey x) (jctx x) with
                  | Some (Ok v) => Some (inl (Some v))
                  | Some (Ko e) => Some (inr e)
                  | None =>
